@@ -1,3 +1,4 @@
+import Cactus.Lemmas.GroupOrder
 import Cactus.Lemmas.Layout
 import Cactus.Lemmas.Basic
 import Cactus.Lemmas.Table
@@ -67,5 +68,23 @@ bisimulation up to permutation of the event log for whole histories (labelled pa
 theorem C09_same_decision_under_every_layout : type_of% @cycleRefs_layout := @cycleRefs_layout
 theorem C09_same_members_under_every_layout : type_of% @group_members_layout := @group_members_layout
 theorem C09_full_group_holds_only_members : type_of% @full_group_closed := @full_group_closed
+
+
+/-! ## The remaining layout dependence is unobservable (`Cactus.Lemmas.GroupOrder`)
+
+The order in which the values of a collected group are destroyed is the only thing a layout can
+still change.  `C09_group_order_irrelevant`: running the block of destructors of quiet values
+(no destructor script, no panic) whose strong handles all designate dead objects — what a
+collected group looks like under `Full` — ends, for **every** order of the block, in the same
+heap, the same handle tables and the same control stack, and the two logs are permutations of
+each other: the same values are destroyed and the same allocations released, only the order
+inside the group differs.  `C09_group_block_ready` derives the side conditions from the
+invariants.  (Strictness matters: the proof needs that the implicit weak reference of every
+member survives until `phase3`; the lemma file contains a machine-checked 9-step example where a
+non-group block without that property ends in `uaf` in one order and not in the other.) -/
+
+theorem C09_group_order_irrelevant : type_of% @group_order_irrelevant_reorder := @group_order_irrelevant_reorder
+theorem C09_group_block_ready : type_of% @ready_of_inv := @ready_of_inv
+theorem C09_release_order_irrelevant : type_of% @releaseWeaks_perm := @releaseWeaks_perm
 
 end Cactus
